@@ -119,6 +119,11 @@ STRENGTHENED = [
     ("seeded/C18-j", "defaults of a called lambda aligned with args only, not posonlyargs + args", "typed generator: positional-only parameters before defaulted ones in called lambdas; literal projections routed through (lambda v, /, i=K: v[i])(literal)"),
     ("seeded/C19-j", "explicit Aggregate(seq, seed, lambda) calls are not walked", "C19: user-written Aggregate calls with shortcuts in the sequence, the seed and the accumulator lambda"),
     ("seeded/C20-j", "empty MetaData wrappers removed before hashing", "C20: edits that wrap the first argument of a call in MetaData(x, {}) / Select(x, lambda x: x)"),
+    ("seeded/C02-k", "defaults of a called lambda merged last: they win over the values given at the call", "typed generator: a defaulted parameter of a called lambda is GIVEN at the call (by position or keyword), the body uses it and the given value differs from the default"),
+    ("seeded/C03-k", "the upward scan for the caller stops one line short of the top of the file", "C03: the file may hold only the statement (the harness' definitions live in another module), from line 1 on"),
+    ("seeded/C06-k", "named tuple = tuple is a DIRECT base", "C06: named tuple classes derived from a NamedTuple / namedtuple class; also the malformed kind 'keyword-only field given by position' (exposed the genuine defect D73)"),
+    ("seeded/C07-k", "the condition of a conditional expression is not type-followed", "C07: conditional expressions with call sites in the condition"),
+    ("seeded/C09-k", "a one-element tuple of [param]s is collapsed to its element", "C09: parameter texts 'x', / (5,) / ('p', 'q'), / () / [1, 2]"),
     ("seeded/C08-c", "generic subclass with more type parameters than its base uses", "C08 skeleton: Tag(Box[K], Generic[K,V]), Tag2(Box[V], ...), Swap(Pair[U,T], ...), HalfPair(Pair[T,int]), It2(Iterable[V], ...), TagInts(Tag[int,V]); class names taken from typing. This extension also exposed the genuine defects D29 and D30"),
 ]
 
